@@ -1,6 +1,8 @@
 """C01: values written at construction are read back exactly (DESIGN.md 2/C01)."""
 import hashlib
 
+import numpy as np
+
 from . import common, cons, place, universe, xt
 
 PID = "C01"
@@ -59,6 +61,10 @@ def shards(tier, seed):
     if tier == "quick":
         decl = [t for t in decl if t[0] == "A" and t[1][0] in ("S", "Str")] + [t for t in decl if not (t[0] == "A" and t[1][0] in ("S", "Str"))][::3]
     out += [("subclass", c) for c in cons.chunk(decl, 16 if tier == "quick" else 48)]
+    # process history: before the array type of a struct item is requested, ANOTHER struct class with the same class name
+    # (other fields) has had its array type of the same shape requested and used
+    tw = [t for t in ts if t[0] == "A" and t[1][0] == "St"]
+    out += [("twin-item", c) for c in cons.chunk(tw, 8 if tier == "quick" else 16)]
     return out
 
 
@@ -68,6 +74,7 @@ def judge(o, vmode, res, seen):
     cid = cons.case_id(t, vmode, o.form, o.pname)
     f = cons.feats(t, vmode, o.form, o.pname)
     cid["decl"] = f["decl"] = xt.DECL[0]
+    cid["process_history"] = f["process_history"] = _HIST[0]
     if o.error is not None:
         res.outcomes["construct-raises"] += 1
         return common.violation("C01.construct", "raises:" + common.exc_failure(o.error), f, cid, repr(o.error))
@@ -99,6 +106,31 @@ def _size_of(obj):
     return int(s)
 
 
+def twin_prelude(types, res):
+    import xobjects as xo
+
+    for t in types:
+        item = xt.build(t[1])
+        Twin = type(item.__name__, (xo.Struct,), {"zz": xo.Float32, "yy": xo.Int8, "ww": xo.String})
+        ident = tuple(t[3]) == tuple(range(len(t[2])))
+        idx = tuple(slice(None) if d is None else d for d in t[2]) if ident else tuple(slice(d, o) for d, o in zip(t[2], t[3]))
+        TwArr = Twin[idx if len(idx) > 1 else idx[0]]
+        try:
+            shape = [2 if d is None else d for d in t[2]]
+            one = {"zz": 1.5, "yy": 3, "ww": "w"}
+
+            def nest(d):
+                return one if d == len(shape) else [nest(d + 1) for _ in range(shape[d])]
+
+            TwArr(nest(0))
+        except Exception as e:
+            res.skipped["twin-construct:" + common.exc_failure(e)] += 1
+        xt._cache.pop((t, xt.DECL[0]), None)  # the array type of the real item is requested AFTER the twin's
+
+
+_HIST = [None]
+
+
 DECL_FORMS = ["py", "nd", "ndF", "xobj-other", "cap", "len"]
 
 
@@ -112,6 +144,14 @@ def run_shard(types, tier, seed):
         types, forms = types[1], DECL_FORMS
         pf0 = pf
         pf = lambda t, form: pf0(t, form)[:2]
+    elif isinstance(types, tuple) and types[0] == "twin-item":
+        import xobjects as xo
+
+        types, forms = types[1], ["py", "xobj-other"]
+        pf0 = pf
+        pf = lambda t, form: pf0(t, form)[:1]
+        _HIST[0] = "twin-item"
+        twin_prelude(types, res)
     for t, vmode, v, form, pname in cons.enumerate_cases(types, cons.VMODES, forms, pf):
         res.cases += 1
         try:
@@ -135,6 +175,8 @@ def run_shard(types, tier, seed):
 def replay(case):
     t = xt.retuple(case["type"])
     xt.DECL[0] = case.get("decl", "index")
+    if case.get("process_history") == "twin-item":
+        twin_prelude([t], common.ShardResult())
     v = xt.gen(t, case["vmode"])
     res = common.ShardResult()
     o = cons.execute(t, v, case["form"], case["place"], 0)
